@@ -603,6 +603,12 @@ class Interp:
             if isinstance(op, ast.NotEq):
                 return a is not b
             raise PyRaise(TypeError("'%s' not supported between instances" % type(op).__name__))
+        if isinstance(op, (ast.Eq, ast.NotEq, ast.Lt, ast.LtE, ast.Gt, ast.GtE)):
+            for g_, o_, refl in ((a, b, False), (b, a, True)):
+                if isinstance(g_, GhostVal) and hasattr(g_, "pv_compare"):
+                    r = g_.pv_compare(type(op).__name__, o_, refl)
+                    if r is not NotImplemented:
+                        return r
         if (isinstance(a, SRef) or isinstance(b, SRef)) and CTX.ghost.get("sref_compare") is not None and isinstance(op, (ast.Eq, ast.NotEq, ast.Lt, ast.LtE, ast.Gt, ast.GtE)):
             r = CTX.ghost["sref_compare"](type(op).__name__, a, b)
             if r is not NotImplemented:
